@@ -159,6 +159,12 @@ type Driver interface {
 	// only if Guarded() is true.
 	SelfDeadlock(stack string) (class, detail string)
 	Guarded() bool
+	// PredictDeadlock tells from the pool's state, BEFORE an event of kind ev ("close", "rclose",
+	// "lclose"; conn is the connection argument or nil) is applied, whether it meets the
+	// precondition of one of the self-deadlocks SelfDeadlock recognises (same class string), ""
+	// otherwise. The prediction is only used to spare the process thousands of leaked goroutines:
+	// see (*world).step.
+	PredictDeadlock(pool types.ConnectionPool, ev string, conn *vfake.Conn) (class, detail string)
 }
 
 // ---------------------------------------------------------------------------
@@ -242,6 +248,7 @@ type world struct {
 	ext            int    // request slots of the cluster held by "other pools" (environment)
 	shutdown       bool   // pool.Shutdown() was called
 	poisoned       bool   // a stream was leased on a connection nobody reads (async pools) or an event self-deadlocked: no event can be applied safely any more
+	stuck          bool   // a goroutine is (or would be) stuck inside this world: never touch or clean it up
 	deadlock       string // class of the self-deadlock the last event ran into
 	deadlockDetail string
 	base           [4]int64
@@ -534,16 +541,40 @@ func (w *world) apply(ev string) (outcome string) {
 }
 
 // step applies one event and waits for the pool's own goroutines.
+//
+// Self-deadlocks. An event that self-deadlocks inside the code under test costs one goroutine that is
+// stuck for ever, and proving it needs a dump of all goroutine stacks. To keep that bounded the driver
+// predicts the deadlock from the pool's state; the first deadlockConfirmations predicted cases of a
+// class are executed for real and must be proven from the stack. Only when all of them were proven
+// (and none refuted) are later predicted cases of that class reported without being executed. A
+// predicted case that does not deadlock when executed refutes the class for the rest of the process:
+// from then on everything is executed. Unpredicted blocks are always examined. In replay mode (fresh
+// process) the recorded case is therefore always executed for real.
 func (w *world) step(ev string) string {
 	var out string
 	before := len(vfake.Created)
 	defer func() { w.attempts = len(vfake.Created) - before }()
 	if w.d.Guarded() {
-		if dl := w.guarded(func() { out = w.apply(ev) }); dl != "" {
+		pcls, pdet := w.predict(ev)
+		if pcls != "" && dlConfirmed[pcls] >= deadlockConfirmations && dlRefuted[pcls] == 0 {
+			w.deadlock, w.deadlockDetail = pcls, pdet+" (not executed: the same precondition was executed and proven to self-deadlock "+strconv.Itoa(deadlockConfirmations)+" times earlier in this run)"
+			w.poisoned, w.stuck = true, true
+			dlSkipped[pcls]++
+			return "self-deadlock"
+		}
+		dl := w.guarded(func() { out = w.apply(ev) })
+		if pcls != "" {
+			if dl == pcls {
+				dlConfirmed[pcls]++
+			} else {
+				dlRefuted[pcls]++
+			}
+		}
+		if dl != "" {
 			// the goroutine applying the event is stuck for ever inside the code under test (and is
 			// leaked); this world must not be touched any more
 			w.deadlock = dl
-			w.poisoned = true
+			w.poisoned, w.stuck = true, true
 			return "self-deadlock"
 		}
 		if w.herr != "" {
@@ -557,6 +588,27 @@ func (w *world) step(ev string) string {
 	}
 	w.syncConns()
 	return out
+}
+
+const deadlockConfirmations = 3
+
+var dlConfirmed, dlRefuted, dlSkipped = map[string]int{}, map[string]int{}, map[string]int{}
+
+func (w *world) predict(ev string) (string, string) {
+	name, arg := ev, -1
+	if i := strings.IndexByte(ev, ':'); i >= 0 {
+		name = ev[:i]
+		arg, _ = strconv.Atoi(ev[i+1:])
+	}
+	switch name {
+	case "close":
+		return w.d.PredictDeadlock(w.pool, name, nil)
+	case "rclose", "lclose":
+		if arg >= 0 && arg < len(w.conns) {
+			return w.d.PredictDeadlock(w.pool, name, w.conns[arg].fc)
+		}
+	}
+	return "", ""
 }
 
 // guarded runs f on a watched goroutine. It returns "" when f returned. If the goroutine blocks on
@@ -604,7 +656,7 @@ func (w *world) guarded(f func()) string {
 		}
 		if time.Since(start) > waitTimeout {
 			w.harness("timeout (%v): the goroutine applying the event is blocked:\n%s", waitTimeout, st)
-			w.poisoned = true
+			w.poisoned, w.stuck = true, true
 			return "harness-timeout"
 		}
 	}
@@ -623,7 +675,14 @@ func goid() string {
 
 func stackOf(gid string) string {
 	buf := make([]byte, 1<<20)
-	buf = buf[:runtime.Stack(buf, true)]
+	for {
+		n := runtime.Stack(buf, true)
+		if n < len(buf) {
+			buf = buf[:n]
+			break
+		}
+		buf = make([]byte, 2*len(buf))
+	}
 	for _, g := range strings.Split(string(buf), "\n\n") {
 		if strings.HasPrefix(g, "goroutine "+gid+" ") {
 			return g
@@ -803,7 +862,7 @@ func (w *world) enabled() []string {
 
 // cleanup closes every connection so that reader goroutines (HTTP/1) exit.
 func (w *world) cleanup() {
-	if !w.d.Async() {
+	if !w.d.Async() || w.stuck {
 		return // no per-connection goroutines to release
 	}
 	w.syncConns()
@@ -897,10 +956,12 @@ func (w *world) check() map[string]sv {
 			obj := fmt.Sprintf("c%d", c.idx)
 			nin := len(w.inflightOn(c))
 			goaway := c.tainted()
-			if goaway && nin == 0 && !w.shutdown {
-				add(obj, pn+" I2 go-away connection still open although its streams are gone",
-					fmt.Sprintf("connection %d announced go-away, carries no stream and is still open (slot state %q)", c.idx, ref[c.fc]))
-				continue
+			if goaway && nin == 0 {
+				if !w.shutdown {
+					add(obj, pn+" I2 go-away connection still open although its streams are gone",
+						fmt.Sprintf("connection %d announced go-away, carries no stream and is still open (slot state %q)", c.idx, ref[c.fc]))
+				}
+				continue // (not also reported as an I3 leak)
 			}
 			if _, ok := ref[c.fc]; !ok && nin == 0 {
 				add(obj, pn+" I3 open connection neither referenced by a slot nor draining (leaked)",
@@ -1093,8 +1154,7 @@ func runHistory(d Driver, cfg Cfg, hist []string, probe int) (res result) {
 				fmt.Sprintf("the goroutine applying event %q blocked for ever inside the pool/stream code: %s", ev, w.deadlockDetail)})
 			res.canon = fmt.Sprintf("SELF-DEADLOCK|%s|%d", w.deadlock, len(hist)) // terminal, never merged with a live state
 			res.poisoned, res.dirty = true, true
-			w = nil // never touch (or clean up) the stuck world
-			return
+			return // (the world is marked stuck: it is never touched or cleaned up again)
 		}
 	}
 	post := w.check()
@@ -1300,6 +1360,11 @@ search:
 	p.Note("new_states_per_depth", perCfg)
 	p.Note("replay_determinism_self_checks", selfChecks)
 	p.Note("capacity_probes_I4", probes)
+	if len(dlConfirmed)+len(dlRefuted)+len(dlSkipped) > 0 {
+		p.Note("self_deadlocks_executed_and_proven_from_the_stack", dlConfirmed)
+		p.Note("self_deadlocks_predicted_but_not_observed", dlRefuted)
+		p.Note("self_deadlocks_reported_from_the_proven_precondition_without_execution", dlSkipped)
+	}
 	if d.Async() {
 		p.Note("states_not_expanded_because_a_stream_sits_on_a_connection_nobody_reads", poisonedStates)
 	}
